@@ -26,7 +26,7 @@ func init() {
 			"each parsed by the real parser and by a reference precedence-climbing parser generated from the table in docs/reference/operators.md; " +
 			"F9: 16 first statements x 120 second lines that begin with a name starting with a reserved word x 7 separators: both statements must parse as each does alone; " +
 			"F10: every ordered pair of infix operators and 6 statement forms per operator as a one-liner run by the real binary with -p: it prints what the one-liner gives as a program of its own; " +
-			"non-trivial = the expression contains at least two constructs whose relative grouping the table decides; distinct = distinct source text; round 8: F9 also states what each of 240 second lines must parse to on its own (a keyword-prefixed name is one identifier); F11: `-LIT OP x`, `(-LIT) OP x` and `-k OP x` must group alike for every operator, 4 literal kinds, both operand positions and every following operator.",
+			"non-trivial = the expression contains at least two constructs whose relative grouping the table decides; distinct = distinct source text; round 10: F12 - expressions whose operands are literals (10 kinds) group like the same expressions over identifiers (every ordered operator pair x 3 layouts); F13 - a call or index after something that ends with `)` or `]` applies to that result (5 bases x every sequence of 2-3 postfix operations, compared with the explicitly parenthesised spelling).; round 8: F9 also states what each of 240 second lines must parse to on its own (a keyword-prefixed name is one identifier); F11: `-LIT OP x`, `(-LIT) OP x` and `-k OP x` must group alike for every operator, 4 literal kinds, both operand positions and every following operator.",
 		Assumptions: []string{
 			"ast.Program.String() renders the grouping faithfully (it is the observable named by the property)",
 			"forms whose grouping the table does not determine are not generated (see DESIGN.md C02 don't-cares)",
@@ -756,6 +756,96 @@ func checkNegativeLiterals(c *core.Ctx, lv *levels) {
 	}
 }
 
+// ---------------------------------------------------------------- literals as operands; calls applied to the results of calls
+
+// F12: what stands at the operand positions does not matter for the grouping: an expression whose operands are literals
+// (strs, raw strs, symbols, numbers, arrays, objects, nil, function literals - two different literals of one kind)
+// groups like the same expression over identifiers, for every ordered operator pair and three operand layouts.
+// F13: a call or index applied to something that ends with `)` or `]` applies to that result: writing the parentheses
+// around the earlier part changes nothing (every sequence of 2-3 postfix operations after 5 bases).
+func checkLiteralOperandsAndCallSequences(c *core.Ctx, lv *levels) {
+	ops := infixOps(lv)
+	one := func(src string) (string, string) {
+		n, o := panrun.Parse(src + "\n")
+		if o != nil {
+			return "", o.Kind + ": " + o.ErrMsg + o.Panic
+		}
+		if len(n.Stmts) != 1 {
+			return "", fmt.Sprintf("parsed into %d statements", len(n.Stmts))
+		}
+		return n.Stmts[0].String(), ""
+	}
+	k := 0
+	kinds := [][2]string{{"\"a\"", "\"b\""}, {"`a`", "`b`"}, {"'a", "'b"}, {"2", "3"}, {"1.5", "2.5"}, {"[1]", "[2]"}, {"{a: 1}", "{b: 2}"}, {"nil", "true"}, {"{|v| v}", "{|w| w}"}, {"\"a\"", "'b"}}
+	for _, kd := range kinds {
+		l1, e1 := one(kd[0])
+		l2, e2 := one(kd[1])
+		if e1 != "" || e2 != "" {
+			c.HarnessError("F12: literal does not parse: %s %s", e1, e2)
+			return
+		}
+		for _, o1 := range ops {
+			for _, o2 := range ops {
+				for _, sh := range [][2]string{{"x " + o1 + " L1 " + o2 + " L2", "x " + o1 + " kq1 " + o2 + " kq2"}, {"L1 " + o1 + " L2 " + o2 + " x", "kq1 " + o1 + " kq2 " + o2 + " x"}, {"L1 " + o1 + " x " + o2 + " L2", "kq1 " + o1 + " x " + o2 + " kq2"}} {
+					k++
+					if !c.Mine(k) {
+						continue
+					}
+					c.Eval(1)
+					c.Nontrivial(1)
+					c.Validated(1)
+					src := strings.ReplaceAll(strings.ReplaceAll(sh[0], "L1", kd[0]), "L2", kd[1])
+					got, ge := one(src)
+					idAST, ie := one(sh[1])
+					want := strings.ReplaceAll(strings.ReplaceAll(idAST, "kq1", l1), "kq2", l2)
+					good := ge == "" && ie == "" && got == want
+					c.Outcome("F12:" + map[bool]string{true: "ok", false: "differs"}[good])
+					if !good {
+						c.Violation(core.Violation{Key: "F12/literal-operands-regrouped", Case: core.JSON(tcase{Family: "F12:" + src}), Desc: src, Expected: want + "  (grouping of " + sh[1] + ")", Observed: got + ge + ie})
+					}
+				}
+			}
+		}
+	}
+	bases := []string{"f", "a.b", "a.^v", "a[0]", "a@b"}
+	posts := []string{"()", "(1)", "(1, k: 2)", "[0]", ".c", ".c(2)", ".^w", "@d"}
+	for _, b := range bases {
+		for i1, p1 := range posts[:4] {
+			for _, p2 := range posts {
+				for i3 := -1; i3 < len(posts); i3++ {
+					k++
+					if !c.Mine(k) {
+						continue
+					}
+					if b == "a[0]" && i1 == 3 {
+						continue
+					}
+					flat := b + p1 + p2
+					grouped := "(" + b + p1 + ")" + p2
+					if i3 >= 0 {
+						flat += posts[i3]
+						if strings.HasSuffix(p2, ")") || strings.HasSuffix(p2, "]") || strings.HasSuffix(p2, "}") {
+							grouped = "(" + grouped + ")" + posts[i3]
+						} else {
+							grouped += posts[i3] // arguments written right after a bare property / variable call belong to that call
+						}
+					}
+					c.Eval(1)
+					c.Nontrivial(1)
+					c.Validated(1)
+					got, ge := one(flat)
+					want, we := one(grouped)
+					good := ge == we && got == want
+					c.Outcome("F13:" + map[bool]string{true: "ok", false: "differs"}[good])
+					if !good {
+						c.Violation(core.Violation{Key: "F13/call-applied-to-a-call-result-regrouped", Case: core.JSON(tcase{Family: "F13:" + flat}), Desc: flat, Expected: want + we + "  (what " + grouped + " parses to)", Observed: got + ge})
+					}
+				}
+			}
+		}
+	}
+}
+
 // ---------------------------------------------------------------- a jargon file in front of the program (-j)
 
 // With -j the text of $PANGAEA_JARGON_FILE is put in front of the program. Whether that file ends with a line
@@ -957,6 +1047,7 @@ func run(c *core.Ctx) {
 	c.Note("distinct_expressions", k)
 	checkStatementPairs(c)
 	checkNegativeLiterals(c, lv)
+	checkLiteralOperandsAndCallSequences(c, lv)
 	checkOneLiners(c, lv)
 	checkJargon(c)
 }
@@ -975,6 +1066,15 @@ func replay(c *core.Ctx, raw json.RawMessage) {
 	}
 	if strings.HasPrefix(tc.Family, "F12:") {
 		checkJargon(c)
+		return
+	}
+	if strings.HasPrefix(tc.Family, "F12:") || strings.HasPrefix(tc.Family, "F13:") {
+		lv, err := readLevels()
+		if err != nil {
+			c.HarnessError("%v", err)
+			return
+		}
+		checkLiteralOperandsAndCallSequences(c, lv)
 		return
 	}
 	if strings.HasPrefix(tc.Family, "F11:") {
